@@ -187,9 +187,20 @@ def run_case(c, d):
         k = d['k']
         c.set_nontrivial((k or 2) >= 2)
         try:
-            spectrum.dpss(d['N'], d['NW'], k)
+            first = spectrum.dpss(d['N'], d['NW'], k)
         except Exception as exc:
             c.exception('dpss', exc, {'fn': 'dpss'})
+            return
+        if d.get('i', 0) % 5 == 0 or d['N'] <= 12:
+            # the caller scales the tapers it got (in place) and asks again: the second answer is judged by the
+            # contract like any other, so it must not be the array the caller has just modified
+            try:
+                t1, e1 = first
+                np.multiply(t1, 3.0, out=t1)
+                np.multiply(e1, 0.5, out=e1)
+                spectrum.dpss(d['N'], d['NW'], k)
+            except Exception as exc:
+                c.exception('dpss', exc, {'fn': 'dpss', 'call': 'repeated'})
         return
     san = c.extra['sanitizer']
     c.set_nontrivial(True)
